@@ -835,8 +835,24 @@ fn c19(r: &mut Rng, i: u64, p: &HashMap<String, String>) -> Vec<Value> {
                 4 => json!([{"comb": "", "name": "", "star": false, "cls": [], "id": "", "nth": [r.below(3) as i64, r.below(3) as i64]}]),
                 _ => selector(r, 2, &d.ids),
             };
+            let mut sel = sel;
             let mut decls = vec![];
-            for _ in 0..r.range(1, 2) { *k += 1; decls.push(json!({"prop": if r.chance(1, 4) { "bg" } else { "color" }, "val": colour(r, *k), "imp": r.chance(1, 3)})); }
+            if r.chance(1, 6) {
+                // a ::before / ::after rule: the winning content text shows up around the element's own text
+                let pe = if r.chance(1, 2) { "before" } else { "after" };
+                if let Some(last) = sel.as_array_mut().and_then(|a| a.last_mut()) { last["pe"] = json!(pe); }
+                *k += 1;
+                let txt: String = format!("\u{3c7}{}", char::from_u32(0x3b1 + (*k % 24) as u32).unwrap());
+                decls.push(content_decl(&txt, r.chance(1, 3)));
+                if r.chance(1, 4) { *k += 1; decls.push(content_decl(&format!("\u{3c7}{}", char::from_u32(0x3b1 + (*k % 24) as u32).unwrap()), r.chance(1, 3))); }
+            } else {
+                for _ in 0..r.range(1, 2) {
+                    *k += 1;
+                    // (colours repeat: the same value at different priorities must not confuse the cascade)
+                    let kk = if r.chance(1, 3) { r.range(1, *k) } else { *k };
+                    decls.push(json!({"prop": if r.chance(1, 4) { "bg" } else { "color" }, "val": colour_k(kk), "imp": r.chance(1, 3)}));
+                }
+            }
             rules.push(rule(vec![sel], decls));
         }
         Value::Array(rules)
@@ -847,7 +863,8 @@ fn c19(r: &mut Rng, i: u64, p: &HashMap<String, String>) -> Vec<Value> {
         if let N::E(_, attrs, kids) = n {
             if r.chance(1, 4) {
                 *k += 1;
-                let dcl = json!({"prop": if r.chance(1, 4) { "bg" } else { "color" }, "val": colour(r, *k), "imp": r.chance(1, 3)});
+                let kk = if r.chance(1, 3) { r.range(1, *k) } else { *k };
+                let dcl = json!({"prop": if r.chance(1, 4) { "bg" } else { "color" }, "val": colour_k(kk), "imp": r.chance(1, 3)});
                 attrs.push(("style".into(), style_attr_text(&[dcl])));
             } else if r.chance(1, 12) { *k += 1; attrs.push(("color".into(), colour_hex(&colour(r, *k)))); }
             for c in kids.iter_mut() { add_inline(r, c, k); }
